@@ -373,6 +373,8 @@ Fixpoint ids_ok (pe : list pend) (l : list out) : Prop :=
   end.
 
 Record Spec10_step (c : cfg) (v : view) (o : op) (ob : obs) : Prop := {
+  (* identifier allocation for one session is mutually exclusive (what a forced schedule observes) *)
+  s10_mutex : ob_overlap ob = false;
   s10_ids : ids_ok (v_pend (view_op c v o ob)) (ob_pkts ob);
   (* the client's own PUBLISH / PUBREL identifier never completes, replaces or deletes an outbound record *)
   s10_own_pub : forall qos pid dup uid now r, o = InPublish qos pid dup uid now -> ob_closed ob = false ->
@@ -406,8 +408,10 @@ Qed.
 
 Theorem chk10_sound c v o ob : chk10 c v o ob (view_op c v o ob) = None -> Spec10_step c v o ob.
 Proof.
-  unfold chk10. intros H. apply orelse_none in H. destruct H as [H1 H2]. fold (snap_of ob) in H2.
+  unfold chk10. intros H. apply orelse_none in H. destruct H as [H0 H]. apply orelse_none in H.
+  destruct H as [H1 H2]. fold (snap_of ob) in H2.
   constructor.
+  - destruct (ob_overlap ob); [discriminate H0|reflexivity].
   - apply chk10_pkts_sound. exact H1.
   - intros qos pid dup uid now r -> Cl G Ob. rewrite G, Ob, Cl in H2. cbn [negb andb] in H2.
     eapply unchanged_of_check; [exact H2|discriminate].
